@@ -2,9 +2,11 @@
    direction.
 
    Statements only; each is closed by `exact` of a lemma of KernelGeomProps.v,
-   KernelPlumbProps.v or KernelTableProps.v.  Every definition named radial_*,
-   vm_*, *_pdf, *_icdf, *_dist, *_random, neighbor_offset, uniform_*, mix_*,
-   factory_*, *_name_table, direction_value comes from
+   KernelPlumbProps.v, KernelTableProps.v or KernelSwitchProps.v.  Every
+   definition named radial_*, vm_*, *_pdf, *_icdf, *_dist, *_random,
+   neighbor_offset, uniform_*, mix_*, factory_*, *_name_table, direction_value,
+   gen_switch_*, class_eligible, class_supports, wrapper_eligible,
+   switch_stored_stochasticity, dynamic_kernel_args comes from
    GeneratedKernelTables.v, which translate/kernel_tables.py rewrites from the
    headers on every check: the theorems are re-proved about what the code says
    now.  Hand-written, specification side: compass, compass_degrees,
@@ -30,7 +32,8 @@
 From Coq Require Import ZArith Reals String List Bool.
 From Coquelicot Require Import Coquelicot.
 From Pops Require Import Err KernelTypesDefs GeneratedKernelTables
-  KernelGeomDefs KernelGeomProps KernelPlumbDefs KernelPlumbProps KernelTableDefs KernelTableProps.
+  KernelGeomDefs KernelGeomProps KernelPlumbDefs KernelPlumbProps KernelTableDefs KernelTableProps
+  KernelSwitchDefs KernelSwitchProps.
 Import ListNotations.
 Local Open Scope R_scope.
 
@@ -365,6 +368,135 @@ Theorem C13_factories_radial_arguments :
   factory_anthropogenic_radial_args = radial_args_spec "anthro" "anthro_kernel".
 Proof. exact factories_radial_args. Qed.
 Print Assumptions C13_factories_radial_arguments.
+
+(* ====================== (f) SwitchDispersalKernel and the eligibility of real kernels ====================== *)
+(* gen_switch_dispatch / gen_switch_eligible / gen_switch_supports are the
+   if-chains of SwitchDispersalKernel::operator(), is_cell_eligible and
+   supports_kernel in source order; class_eligible / class_supports the bodies of
+   is_cell_eligible / supports_kernel of the five kernel classes; wrapper_eligible
+   that of DynamicWrapperKernel; all regenerated from the headers on every check.
+   node_at: the network has a node at the source cell.  The statements hold for
+   EVERY kernel type, flag value and node_at (finite case analysis over the
+   translated tables). *)
+
+(* The constructor stores the stochasticity flag as given; its default is true. *)
+Theorem C13_switch_stochasticity_stored :
+  (forall s, switch_stored_stochasticity s = s) /\ switch_default_stochasticity = true.
+Proof. exact switch_stochasticity_stored. Qed.
+Print Assumptions C13_switch_stochasticity_stored.
+
+(* operator() calls the kernel the type names: Uniform -> uniform kernel,
+   DeterministicNeighbor -> neighbour kernel, Network -> network kernel, every
+   other type -> radial kernel when stochastic, deterministic kernel when not. *)
+Theorem C13_switch_dispatch : forall ty stoch,
+  switch_target ty stoch = switch_target_spec ty stoch /\
+  (ty = KUniform -> switch_target ty stoch = CUniform) /\
+  (ty = KDeterministicNeighbor -> switch_target ty stoch = CNeighbor) /\
+  (ty = KNetwork -> switch_target ty stoch = CNetwork) /\
+  (ty <> KUniform -> ty <> KDeterministicNeighbor -> ty <> KNetwork ->
+     switch_target ty stoch = if stoch then CRadial else CDeterministic).
+Proof. exact switch_dispatch_full. Qed.
+Print Assumptions C13_switch_dispatch.
+
+(* Eligibility of the real kernel classes: radial, deterministic, uniform and
+   neighbour kernels are eligible everywhere, the network kernel iff the network
+   has a node at the cell; DynamicWrapperKernel forwards its kernel's answer. *)
+Theorem C13_kernel_eligibility : forall c node_at,
+  elig_eval (class_eligible c) node_at = (match c with CNetwork => node_at | _ => true end) /\
+  wrapper_eligible (elig_eval (class_eligible c) node_at) = elig_eval (class_eligible c) node_at.
+Proof. exact kernel_eligibility. Qed.
+Print Assumptions C13_kernel_eligibility.
+
+(* is_cell_eligible of the switch kernel is consistent with operator(): it is the
+   eligibility of the member kernel operator() calls, i.e. node_at exactly when
+   that is the network kernel (ty = Network) and true otherwise; and where it is
+   true the call does not throw for lack of a node. *)
+Theorem C13_switch_eligible_consistent : forall ty stoch node_at,
+  switch_eligible ty stoch node_at = elig_eval (class_eligible (switch_target ty stoch)) node_at /\
+  switch_eligible ty stoch node_at = (match switch_target ty stoch with CNetwork => node_at | _ => true end) /\
+  (switch_eligible ty stoch node_at = true <-> (ty = KNetwork -> node_at = true)) /\
+  (switch_eligible ty stoch node_at = true -> class_call_throws (switch_target ty stoch) node_at = false).
+Proof. exact switch_eligible_full. Qed.
+Print Assumptions C13_switch_eligible_consistent.
+
+(* supports_kernel as the code has it: the five classes list the types they
+   name, the switch kernel lists Uniform, DeterministicNeighbor and the ten
+   radial types - it dispatches Network but does not list it (observation). *)
+Theorem C13_switch_supports : forall ty,
+  (forall c, class_supports c ty = kernel_type_in ty (class_supports_spec c)) /\
+  switch_supports ty = kernel_type_in ty (KUniform :: KDeterministicNeighbor :: radial_kernel_types) /\
+  switch_supports KNetwork = false.
+Proof. exact switch_supports_full. Qed.
+Print Assumptions C13_switch_supports.
+
+(* Kernels built by create_natural_kernel / create_anthro_kernel: the natural one
+   is eligible everywhere, the anthropogenic one iff it is not the network kernel
+   or the cell has a node; the hand-built switch kernel and the factory agree on
+   class and eligibility for every type and flag; create_dynamic_kernel hands
+   (natural kernel, anthropogenic kernel, use_anthropogenic_kernel,
+   percent_natural_dispersal) to the mix in this order. *)
+Theorem C13_factory_eligibility : forall k stoch node_at,
+  factory_natural_eligible k stoch node_at = true /\
+  factory_anthropogenic_eligible k stoch node_at =
+    (match factory_anthropogenic k stoch with CNetwork => node_at | _ => true end) /\
+  (factory_anthropogenic_eligible k stoch node_at = true <-> (k = KNetwork -> node_at = true)).
+Proof. exact factory_eligibility. Qed.
+Print Assumptions C13_factory_eligibility.
+
+Theorem C13_construction_routes_agree : forall ty stoch node_at,
+  switch_target ty stoch = factory_anthropogenic ty stoch /\
+  switch_eligible ty stoch node_at = factory_anthropogenic_eligible ty stoch node_at.
+Proof. exact routes_agree. Qed.
+Print Assumptions C13_construction_routes_agree.
+
+Theorem C13_dynamic_kernel_arguments : dynamic_kernel_args = dynamic_kernel_args_spec.
+Proof. exact dynamic_kernel_arguments. Qed.
+Print Assumptions C13_dynamic_kernel_arguments.
+
+(* The mix built from REAL kernels (translated decision expression composed with
+   the translated eligibility), for both construction routes: the anthropogenic
+   kernel is used only if it is enabled and eligible at the source cell - for the
+   network kernel: the cell has a node - and the Bernoulli draw says so; the
+   Bernoulli is drawn iff enabled and eligible; the kernel that is called never
+   throws for lack of a node. *)
+Theorem C13_mix_real_kernels_switch : forall use ty stoch node_at bern,
+  (mix_switch_choice use ty stoch node_at bern = MixAnthropogenic <->
+     use = true /\ (ty = KNetwork -> node_at = true) /\ bern = false) /\
+  (mix_switch_choice use ty stoch node_at bern = MixNatural <->
+     use = false \/ (ty = KNetwork /\ node_at = false) \/ bern = true) /\
+  (mix_switch_draws use ty stoch node_at = true <-> use = true /\ (ty = KNetwork -> node_at = true)).
+Proof. exact mix_switch_decision. Qed.
+Print Assumptions C13_mix_real_kernels_switch.
+
+Theorem C13_mix_real_kernels_factory : forall use ty stoch node_at bern,
+  (mix_factory_choice use ty stoch node_at bern = MixAnthropogenic <->
+     use = true /\ (ty = KNetwork -> node_at = true) /\ bern = false) /\
+  (mix_factory_choice use ty stoch node_at bern = MixNatural <->
+     use = false \/ (ty = KNetwork /\ node_at = false) \/ bern = true) /\
+  (mix_factory_draws use ty stoch node_at = true <-> use = true /\ (ty = KNetwork -> node_at = true)).
+Proof. exact mix_factory_decision. Qed.
+Print Assumptions C13_mix_real_kernels_factory.
+
+Theorem C13_mix_never_calls_ineligible : forall use ty stoch node_at bern,
+  (mix_switch_choice use ty stoch node_at bern = MixAnthropogenic ->
+     class_call_throws (switch_target ty stoch) node_at = false) /\
+  (mix_factory_choice use ty stoch node_at bern = MixAnthropogenic ->
+     class_call_throws (factory_anthropogenic ty stoch) node_at = false).
+Proof. exact mix_never_calls_ineligible. Qed.
+Print Assumptions C13_mix_never_calls_ineligible.
+
+Example C13_nonvacuous_switch :
+  switch_target KNetwork false = CNetwork /\ switch_target KGamma false = CDeterministic /\
+  switch_target KGamma true = CRadial /\ switch_target KUniform false = CUniform /\
+  switch_eligible KNetwork true false = false /\ switch_eligible KNetwork true true = true /\
+  switch_eligible KCauchy false false = true /\
+  mix_switch_choice true KNetwork true false false = MixNatural /\
+  mix_switch_draws true KNetwork true false = false /\
+  mix_switch_choice true KNetwork true true false = MixAnthropogenic /\
+  mix_factory_choice true KNetwork false false false = MixNatural /\
+  mix_factory_choice true KCauchy false false false = MixAnthropogenic.
+Proof. vm_compute. repeat split. Qed.
+Print Assumptions C13_nonvacuous_switch.
 
 (* Non-vacuity: concrete instances computed by the kernel of Coq. *)
 Example C13_nonvacuous_tables :
